@@ -1,9 +1,10 @@
 package emit
 
-// rodata.go: with EMIT_RODATA=1 (the hostile streams of C02, which run under lib/isolate.py) every string and every []byte
-// the value builder creates lives in READ-ONLY memory (an mmap'ed page turned PROT_READ; capacity = length for slices).
-// An operation that writes into memory it was only handed to read - a source string, a []byte it found in the object -
-// then dies with a fault instead of silently corrupting a value some other holder may share, and the abort is observed.
+// rodata.go: with EMIT_RODATA=1 (the hostile streams of C02, which run under lib/isolate.py) every STRING the value builder
+// creates lives in READ-ONLY memory (an mmap'ed page turned PROT_READ), as string literals do.  An operation that writes into
+// a string's bytes - through a zero-copy []byte view it stored earlier, say - then dies with a fault, as it would on a literal,
+// instead of silently corrupting an immutable value, and the abort is observed.  ([]byte values stay writable: a slice a caller
+// hands in by pointer may legitimately be written through, e.g. when the path addresses an element of a []uint8.)
 
 import (
 	"os"
